@@ -1,7 +1,7 @@
 (* C31 — evaluation: the model string lexer vs lexer::tokenize on string-literal texts. *)
 From Coq Require Import List NArith ZArith Bool.
 Import ListNotations.
-Require Import RV.Model.C30_Text RV.Model.C31_Lexer RV.Model.C30_Value RV.Model.C31_Parser.
+Require Import RV.Model.C30_Text RV.Model.C31_Lexer RV.Model.C30_Value RV.Model.C31_Parser RV.Model.C31_Snippet RV.Model.C31_IdValidator.
 Open Scope N_scope.
 
 Definition xexp_eqb (a b : xexp) : bool :=
@@ -50,15 +50,62 @@ Definition perr_eqb (a b : perr) : bool :=
 Definition mres_agrees (m : pres (list (list N * list ast))) (r : mres) : bool :=
   match m, r with
   | POk l [], MOk n => Nat.eqb (length l) n
+  | PErr PUnmodelled, MPanic => false
+  | PErr PUnmodelled, _ => true          (* Enum with a named discriminator: the alias table is not modelled, no verdict *)
   | PErr e, MErr e' => perr_eqb e e'
   | _, _ => false
   end.
+(* BasicManifestValidator: outcome of every call up to the first error; new_* calls return the new id *)
+Inductive outcome := OOk (id : option N) | OErr | OPanic.
+Fixpoint trace (ops : list op) (s : st) : list outcome :=
+  match ops with
+  | [] => []
+  | o :: t =>
+      match step o s with
+      | VOk s' => OOk (match o with NewBucket => Some (next_b s) | NewProof _ | CloneProof _ => Some (next_p s) | _ => None end) :: trace t s'
+      | VErr => [OErr]
+      | VPanic => [OPanic]
+      end
+  end.
+Definition optN_eqb (a b : option N) : bool := match a, b with Some x, Some y => N.eqb x y | None, None => true | _, _ => false end.
+Definition outcome_eqb (a b : outcome) : bool :=
+  match a, b with OOk x, OOk y => optN_eqb x y | OErr, OErr => true | _, _ => false end.   (* OPanic never agrees *)
+Fixpoint outcomes_eqb (a b : list outcome) : bool :=
+  match a, b with [] , [] => true | x :: a', y :: b' => outcome_eqb x y && outcomes_eqb a' b' | _, _ => false end.
+Fixpoint lines_eqb (a b : list (list N)) : bool :=
+  match a, b with [], [] => true | x :: a', y :: b' => listN_eqb x y && lines_eqb a' b' | _, _ => false end.
+(* real error span (start index, start line_idx, end index, end line_idx) vs line_of; the snippet arithmetic
+   does not panic on it *)
+(* carriage returns at the end of a displayed line are not displayed *)
+Fixpoint drop_crs (l : list N) : list N := match l with 13 :: t => drop_crs t | _ => l end.
+Definition strip_crs (l : list N) : list N := rev (drop_crs (rev l)).
+Definition span_check (text : list N) (bytes a la b lb : N) : bool :=
+  N.eqb (line_idx text a) la && N.eqb (line_idx text b) lb &&
+  match snippet true text bytes a la b lb with SnOk _ _ _ _ => true | SnPanic => false end.
+(* rendered PlainText diagnostics: first displayed line number, displayed source lines (compared up to trailing CRs), caret line = (line number above it, column, number of carets) *)
+Definition snippet_check (text : list N) (bytes a la b lb first : N) (shown : list (list N)) (caret : option (N * N * N)) : bool :=
+  match snippet true text bytes a la b lb with
+  | SnOk f sh ra rb =>
+      N.eqb f first && lines_eqb (map strip_crs sh) (map strip_crs shown) &&
+      match caret with
+      | None => true
+      | Some (n, col, len) =>
+          N.eqb n (la + 1) && N.eqb (col + sum_lens (firstn (N.to_nat (la + 1 - f)) sh)) ra && N.eqb len (rb - ra)
+      end
+  | SnPanic => false
+  end.
 Inductive case := CNone | CString (text : list N) (out : sres) | CLex (text : list N) (out : lres)
-| CManifest (ts : list tok) (res : mres).
+| CManifest (ts : list tok) (res : mres)
+| CSpan (text : list N) (bytes a la b lb : N)
+| CSnippet (text : list N) (bytes a la b lb first : N) (shown : list (list N)) (caret : option (N * N * N))
+| CIdv (ops : list op) (out : list outcome).
 Definition check (c : case) : bool :=
   match c with
   | CNone => true
   | CString text out => sres_eqb (lex_string_literal text) out
   | CLex text out => lres_eqb (tokenize text) out
   | CManifest ts res => mres_agrees (parse_manifest (map (fun x => fst (fst x)) ts)) res
+  | CSpan text bytes a la b lb => span_check text bytes a la b lb
+  | CSnippet text bytes a la b lb first shown caret => span_check text bytes a la b lb && snippet_check text bytes a la b lb first shown caret
+  | CIdv ops out => outcomes_eqb (trace ops init) out
   end.
